@@ -368,3 +368,49 @@ def r4(prog):
     inst = [i for i in inst if not (i[0] in seen_i or seen_i.add(i[0]))]
     findings = [f for f in findings if not ((f["key"], f["msg"]) in seen_f or seen_f.add((f["key"], f["msg"])))]
     return inst, findings
+
+
+def s6(prog):
+    """a name that is both bound in the enclosing scope chain and visible as an up-reference of the enclosing block resolves to the
+    binding (inner binders shadow outer ones): build_exec interpreted for READ and for the free names of a BLOCK under every
+    combination of "the scope chain has it" / "the enclosing block's up-references have it"."""
+    from r_scope import tree_types
+    from cxxobj import StdStr
+    inst, findings = [], []
+    tt = tree_types(prog)
+    be = prog.func_opt("(anonymous namespace)::build_exec")
+    if be is None:
+        raise Broken("anchor build_exec vanished")
+
+    class Upref:
+        def __init__(self):
+            self.builtin = False
+            self.addr = id(self)
+    for kind in ("READ", "BLOCK"):
+        key = "S6:" + kind
+        bad = None
+        for has_bn, has_up in ((True, True), (True, False), (False, True)):
+            ev = BuildEval(prog)
+            ev.found = Binding(False) if has_bn else None
+            ev.found_up = Upref() if has_up else None
+            ev.hooks["uprefs::refd_ids"] = lambda ev_, o, a: Vec([(0, StdStr(b"A"))], "map")
+            ev.hooks["binding::get_bind"] = lambda ev_, o, a: Sym.of("the-binding")
+            ev.hooks["upref::get_id"] = lambda ev_, o, a: 7
+            ev.hooks["ctor:std::basic_string<char>"] = lambda ev_, o, a: a[0] if a else StdStr(b"")
+            L0, BN0, UP0, US0 = Layout(), Scope(None, fresh=False), Obj("uprefs"), Sym.of("upstream")
+            t = mktree(tt, kind, 1)
+            t.m_str = StdStr(b"A")
+            try:
+                ev.call(be, None, [t, L0, Sym.of("rdv0"), US0, BN0, UP0])
+            except (OutOfBounds, Thrown) as x:
+                raise Broken("build_exec on a %s node cannot be evaluated: %s" % (kind, x))
+            reads = [m.cls for m in ev.trace["made"] if m.cls in ("op_read", "op_upread")]
+            want = ["op_read"] if has_bn else ["op_upread"]
+            if reads != want and bad is None:
+                bad = "with the name bound in the scope chain: %s, visible as up-reference of the enclosing block: %s, build_exec emits %s for %s; expected %s" % (
+                    has_bn, has_up, reads, "a read of the name" if kind == "READ" else "the capture of a free name of a nested block", want)
+        inst.append((key, {"combinations": 3}))
+        if bad:
+            findings.append({"key": key, "where": "libzwerg/" + be["l"],
+                             "msg": bad + ": a nested block would capture the outer binding instead of the textually enclosing one (inner binders must shadow outer ones)", "detail": None})
+    return inst, findings
